@@ -381,6 +381,12 @@ class Interp:
         if n.exc is None:
             yield ("raise", ("exc", "Exception", (), "reraise")), st
             return
+        if isinstance(n.exc, ast.IfExp) and n.cause is None:
+            # raise (A if c else B)  ==  if c: raise A  else: raise B
+            alt = ast.If(test=n.exc.test, body=[ast.copy_location(ast.Raise(exc=n.exc.body, cause=None), n)],
+                         orelse=[ast.copy_location(ast.Raise(exc=n.exc.orelse, cause=None), n)])
+            yield from self.block([ast.fix_missing_locations(ast.copy_location(alt, n))], st, fx)
+            return
         for r, t, s in self.ev(n.exc, st, fx):
             if r == "raise":
                 yield ("raise", t), s
